@@ -14,12 +14,19 @@ import Verif.Model.Common
         `defaultSANsValidator.Valid`                                    -> `sansValid`
         `csrFingerprintValidator.Valid`                                 -> `fpValid`
         `provisionerExtensionOption.Modify`                             -> `modifyExt`
+        `provisionerExtensionOption.WithControllerOptions`              -> `Cfg.extDisabled`
+    * authority/provisioner/claims.go `Claimer.IsDisableSmallstepExtensions`, `Claimer.Claims`
+      (merge of the authority-level claims into the provisioners' global claims,
+      authority/provisioners.go `generateProvisionerConfig`)           -> `effClaim`
     * authority/provisioner/options.go `CustomTemplateOptions` (the closure: user data is attached
       only when `opts.HasTemplate()`)                                   -> `templateUser`
     * go.step.sm/crypto/x509util `CreateSANs`                            -> `createSANs`
       `DefaultLeafTemplate` + `Certificate.GetCertificate` (`SubjectAlternativeName.Set` appends
       each name to the list of its type)                                -> `applyLeaf`
       `DefaultAdminLeafTemplate`                                        -> `applyAdmin`
+    * authority/provisioner/nebula.go `(*Nebula).AuthorizeSign`, `nebulaSANsValidator.Valid`
+                                                                        -> `authorize` (.nebula), `nebValid`
+    * authority/provisioner/k8sSA.go `(*K8sSA).AuthorizeSign`           -> `authorize` (.k8ssa)
     * authority/tls.go `signX509`: CSR signature, request validators in option order, template,
       modifiers, (certificate validators and enforcers do not touch names: validity is C06,
       policy is C04), CAS signing                                       -> `sign`
@@ -103,19 +110,50 @@ structure Token where
   cnf : Cnf
   email : Option San
   issUri : Option San
+  /-- Nebula only: the `Details.Name` of the Nebula certificate in the token header, classified by
+      `SplitSANs`, and its `Details.Ips` (address part, canonical text) -/
+  nebName : Option San
+  nebIPs : List Str
   deriving Repr, DecidableEq
 
 inductive Prov where
   | jwk | x5c
   | oidc (admin : Bool)
+  | nebula
+  | k8ssa
   deriving Repr, DecidableEq
+
+/-- the boolean claims of `provisioner.Claims`, each unset / true / false -/
+structure BoolClaims where
+  disableRenewal : Option Bool
+  disableExt : Option Bool          -- disableSmallstepExtensions
+  allowAfterExpiry : Option Bool
+  deriving Repr, DecidableEq
+
+def noClaims : BoolClaims := ⟨none, none, none⟩
+
+/-- one boolean claim through the two `Claimer`s: the provisioner's value if set
+    (`Claimer.IsDisable…`: `c.claims.X` else `c.global.X`), else the authority-level value, which
+    itself is `Claimer.Claims()` of the authority claims over `config.GlobalProvisionerClaims`
+    (all three booleans default to false) -/
+def effClaim (prov auth : Option Bool) : Bool :=
+  match prov with
+  | some b => b
+  | none => match auth with
+    | some b => b
+    | none => false
 
 structure Cfg where
   prov : Prov
   hasTemplate : Bool     -- provisioner options carry a template
-  extDisabled : Bool     -- claim disableSmallstepExtensions
+  authClaims : BoolClaims  -- `authority.claims` of the configuration
+  provClaims : BoolClaims  -- the provisioner's own claims
   gen : Ext              -- the genuine provisioner extension (type, name, credential id)
   deriving Repr, DecidableEq
+
+/-- `provisionerExtensionOption.WithControllerOptions`: `Disabled = Claimer.IsDisableSmallstepExtensions()`;
+    the other boolean claims play no part -/
+def Cfg.extDisabled (cfg : Cfg) : Bool := effClaim cfg.provClaims.disableExt cfg.authClaims.disableExt
 
 /-- user supplied `templateData`: the `extensions` member as the custom template would render
     it, and everything else as an opaque value -/
@@ -147,12 +185,16 @@ structure Plan where
   cnRule : CnRule
   sans : Option (List San)   -- defaultSANsValidator, absent for OIDC
   cnf : Cnf
+  neb : Option (List San × List Str) := none   -- nebulaSANsValidator{Name, IPs}
   deriving Repr, DecidableEq
 
 /-- `if len(claims.SANs) == 0 { claims.SANs = []string{claims.Subject} }` -/
 def effSans (t : Token) : List San := if t.sans.isEmpty then [t.sub] else t.sans
 
 def oidcSans (t : Token) : List San := t.email.toList ++ t.issUri.toList
+
+/-- what the Nebula certificate certifies: its name and its addresses -/
+def nebCreds (t : Token) : List San := t.nebName.toList ++ t.nebIPs.map fun ip => ⟨.ip, ip, ip⟩
 
 def authorize (cfg : Cfg) (t : Token) : Plan :=
   match cfg.prov with
@@ -171,6 +213,21 @@ def authorize (cfg : Cfg) (t : Token) : Plan :=
   | .oidc admin =>
     { data := ⟨t.sub.raw, createSANs (oidcSans t), none⟩
       tpl := if cfg.hasTemplate then .custom else if admin then .admin else .leaf
+      cnRule := .none, sans := none, cnf := .absent }
+  | .nebula =>
+    -- `sans := claims.SANs; if len(sans) == 0 { name, then every ip }`: the token's list is used
+    -- as it is; only the CSR is compared with the Nebula certificate (nebulaSANsValidator)
+    let sans := if t.sans.isEmpty then nebCreds t else t.sans
+    { data := ⟨t.sub.raw, createSANs sans, none⟩
+      tpl := if cfg.hasTemplate then .custom else .leaf
+      cnRule := .exactly t.sub.raw
+      sans := none, cnf := .absent
+      neb := some (t.nebName.toList, t.nebIPs) }
+  | .k8ssa =>
+    -- template data: common name = service account name (sent as `sub`), no SANs; the default
+    -- template is the certificate request
+    { data := ⟨t.sub.raw, [], none⟩
+      tpl := if cfg.hasTemplate then .custom else .admin
       cnRule := .none, sans := none, cnf := .absent }
 
 /-! ### request validators -/
@@ -198,9 +255,19 @@ def fpValid : Cnf → Bool
   | .undecodable => false
   | .present m => m
 
+/-- `nebulaSANsValidator.Valid`: DNS / e-mail / URI lists, when present, must be set-equal to the
+    classification of the certificate name; every IP of the CSR must be the name (if it is an IP)
+    or one of the certificate's addresses (`ip.Equal`, i.e. equal canonical text) -/
+def nebValid (name : List San) (ips : List Str) (c : CSR) : Bool :=
+  (c.dns.isEmpty || setEq (ofKind .dns name) c.dns) &&
+  (c.emails.isEmpty || setEq (ofKind .email name) c.emails) &&
+  (c.uris.isEmpty || setEq (ofKind .uri name) c.uris) &&
+  c.ips.all fun ip => (ofKind .ip name ++ ips).contains ip
+
 def reqValid (p : Plan) (c : CSR) : Bool :=
   fpValid p.cnf && cnValid p.cnRule c && c.keyOK &&
-  (match p.sans with | none => true | some s => sansValid s c)
+  (match p.sans with | none => true | some s => sansValid s c) &&
+  (match p.neb with | none => true | some (n, ips) => nebValid n ips c)
 
 /-! ### template -/
 
@@ -287,5 +354,92 @@ def sign (cfg : Cfg) (t : Token) (c : CSR) (ud : Option UserData) (enc : Enc) : 
   else if encOK (authorize cfg t) enc = false ∨
       hasDupOid (finalCert cfg (authorize cfg t) c (templateUser cfg ud)).exts = true then .error
   else .issued (finalCert cfg (authorize cfg t) c (templateUser cfg ud))
+
+/-! ### source-derived tables
+
+  The harness (harness/cmd/c03_src, go/ast over the repository) re-derives these sequences from the
+  Go source on every run and the driver prints them; `Verif.Props.C03` relates them to `sign` and
+  `authorize`. -/
+
+/-- calls, loops and type-switch cases of `Authority.signX509`, in source order -/
+inductive Tok where
+  | checkSignature | rangeExtraOpts | caseInterface | caseCertificateOptions | options
+  | caseRequestValidator | valid | caseCertificateValidator | caseCertificateModifier
+  | caseCertificateEnforcer | caseAttestationData | caseWebhookController | enrich
+  | newCertificate | getCertificate | modify | withDefaultASN1DN | rangeCertModifiers
+  | rangeCertValidators | rangeCertEnforcers | enforce | rangeAuthEnforcers | isAllowed
+  | authorizeWebhook | createCertificate | storeCertificate
+  deriving Repr, DecidableEq
+
+def Tok.str : Tok → String
+  | .checkSignature => "CheckSignature" | .rangeExtraOpts => "range(extraOpts)"
+  | .caseInterface => "case(Interface)" | .caseCertificateOptions => "case(CertificateOptions)"
+  | .options => "Options" | .caseRequestValidator => "case(CertificateRequestValidator)"
+  | .valid => "Valid" | .caseCertificateValidator => "case(CertificateValidator)"
+  | .caseCertificateModifier => "case(CertificateModifier)"
+  | .caseCertificateEnforcer => "case(CertificateEnforcer)"
+  | .caseAttestationData => "case(AttestationData)" | .caseWebhookController => "case(webhookController)"
+  | .enrich => "callEnrichingWebhooksX509" | .newCertificate => "NewCertificate"
+  | .getCertificate => "GetCertificate" | .modify => "Modify" | .withDefaultASN1DN => "withDefaultASN1DN"
+  | .rangeCertModifiers => "range(certModifiers)" | .rangeCertValidators => "range(certValidators)"
+  | .rangeCertEnforcers => "range(certEnforcers)" | .enforce => "Enforce"
+  | .rangeAuthEnforcers => "range(a.x509Enforcers)" | .isAllowed => "isAllowedToSignX509Certificate"
+  | .authorizeWebhook => "callAuthorizingWebhooksX509" | .createCertificate => "CreateCertificate"
+  | .storeCertificate => "storeCertificate"
+
+/-- `signX509` as it stands in authority/tls.go -/
+def signX509Source : List Tok :=
+  [.checkSignature, .rangeExtraOpts, .caseInterface, .caseCertificateOptions, .options,
+   .caseRequestValidator, .valid, .caseCertificateValidator, .caseCertificateModifier,
+   .caseCertificateEnforcer, .caseAttestationData, .caseWebhookController, .enrich,
+   .newCertificate, .getCertificate, .modify, .withDefaultASN1DN, .rangeCertModifiers, .modify,
+   .rangeCertValidators, .valid, .rangeCertEnforcers, .enforce, .rangeAuthEnforcers, .enforce,
+   .isAllowed, .authorizeWebhook, .createCertificate, .storeCertificate]
+
+/-- the phases `sign` goes through, in the order it goes through them -/
+inductive Phase where
+  | checkSig | requestValidators | template | modifiers | certValidators | enforcers | casSign
+  deriving Repr, DecidableEq
+
+def signPhases : List Phase :=
+  [.checkSig, .requestValidators, .template, .modifiers, .certValidators, .enforcers, .casSign]
+
+/-- the source tokens that realise a phase -/
+def Phase.marker : Phase → List Tok
+  | .checkSig => [.checkSignature]
+  | .requestValidators => [.rangeExtraOpts, .caseRequestValidator, .valid]
+  | .template => [.newCertificate, .getCertificate]
+  | .modifiers => [.rangeCertModifiers, .modify]
+  | .certValidators => [.rangeCertValidators, .valid]
+  | .enforcers => [.rangeCertEnforcers, .enforce]
+  | .casSign => [.createCertificate]
+
+/-- elements of the `[]SignOption` literal an `AuthorizeSign` returns -/
+inductive Opt where
+  | self | oidcSelf | pSelf | nebulaSans | templateOptions | provExt | defaultDuration | limitDuration
+  | fingerprint | cnSlice | cnExact | pubKey | sans | validity | namePolicy | webhook
+  deriving Repr, DecidableEq
+
+def Opt.str : Opt → String
+  | .self => "self" | .oidcSelf => "o" | .pSelf => "p" | .nebulaSans => "nebulaSANsValidator"
+  | .templateOptions => "templateOptions"
+  | .provExt => "newProvisionerExtensionOption" | .defaultDuration => "profileDefaultDuration"
+  | .limitDuration => "profileLimitDuration" | .fingerprint => "csrFingerprintValidator"
+  | .cnSlice => "commonNameSliceValidator" | .cnExact => "commonNameValidator"
+  | .pubKey => "defaultPublicKeyValidator" | .sans => "newDefaultSANsValidator"
+  | .validity => "newValidityValidator" | .namePolicy => "newX509NamePolicyValidator"
+  | .webhook => "newWebhookController"
+
+/-- the option lists as they stand in jwk.go, x5c.go, oidc.go -/
+def optionSource : Prov → List Opt
+  | .jwk => [.self, .templateOptions, .provExt, .defaultDuration, .fingerprint, .cnSlice, .pubKey, .sans,
+             .validity, .namePolicy, .webhook]
+  | .x5c => [.self, .templateOptions, .provExt, .limitDuration, .fingerprint, .cnExact, .sans, .pubKey,
+             .validity, .namePolicy, .webhook]
+  | .oidc _ => [.oidcSelf, .templateOptions, .provExt, .defaultDuration, .pubKey, .validity, .namePolicy,
+                .webhook]
+  | .nebula => [.pSelf, .templateOptions, .provExt, .limitDuration, .cnExact, .nebulaSans, .pubKey, .validity,
+                .namePolicy, .webhook]
+  | .k8ssa => [.pSelf, .templateOptions, .provExt, .defaultDuration, .pubKey, .validity, .namePolicy, .webhook]
 
 end Verif.SignNames
